@@ -85,15 +85,18 @@ CLAIMED = {
          "two USBTMC resource round-trip findings (serial numbers containing ':' or '=') remain open known findings.",
     technique="generic table-driven Coq theorems + translator-fed reflection + differential fuzzing"),
  "C15": dict(category="proof", design_ref="7 (C15)",
-    text="42 Coq theorems (all closed) over executable models of the five codecs: Interbus round trip incl. reserved bytes in data and CRC, framing, escape inverse, CRC append, "
-         "rejection/soundness, detection of every single-byte corruption, address matching and bounded retries; USBTMC write_raw reassembled exactly by a reference device for every "
-         "length, transfer size and tag, tag range/wrap, read_raw reassembly for every conforming split; T2 batch-split invariance and the mod-2^64 timestamp formula; SCPI block round "
-         "trip/soundness, decimal codec, ask terminator handling; APT header round trips and message-id check. Tie: differential execution of the real code with recording transports / "
-         "fake bulk endpoints (3.5k cases quick, 76k thorough) plus an independent conforming-device oracle.",
-    note="Trusted: Coq kernel+vm_compute incl. three 65536-state and one 255-value CRC sweeps lifted by forallb_forall (finite domains, bounds stated); hand models; harness stubs; numpy "
-         "uint64 arithmetic and ctypes packed layout assumed and compared. USBTMC quirk flags off; T3 outside; read_raw with num>0 and APT field-by-field reinterpretation are checked by "
-         "correspondence/oracle only.",
-    technique="executable Gallina codecs, induction and round-trip/soundness proofs, finite CRC sweeps, differential testing"),
+    text="58 Coq theorems + 8 generated per-packet obligations (all closed) over executable models of the five codecs. Interbus: round trip incl. reserved bytes in data and CRC, framing, "
+         "escape inverse, CRC append, rejection/soundness, detection of every single-byte corruption, address matching and bounded retries. USBTMC: write_raw reassembled exactly by a "
+         "reference device for every length, transfer size and tag incl. the Advantest 63-byte quirk; read_raw for every split, unlimited and size-limited. T2: batch-split invariance, "
+         "timestamp formula, refinement of an unbounded physical-time specification across the 2^64 wrap (no event lost or duplicated). SCPI: block round trip and soundness under any "
+         "splitting of the reply into transfers (also inside the header digits), decimal codec, ask/write terminator and non-ASCII behaviour. APT: header round trips, the message-id check "
+         "(and, stated explicitly, its absence for HEADER_ONLY types), field-by-field pack/unpack round trip generic over layout tables REGENERATED from apt_packets.py on every run "
+         "(fail-closed translator; layout_wf per packet by vm_compute). Tie: differential execution of the real code with recording / chunked transports and fake bulk endpoints (4.1k "
+         "cases quick, 91k thorough) plus an independent conforming-device oracle and a pinned table of documented APT layouts.",
+    note="Trusted: Coq kernel+vm_compute incl. CRC sweeps (65536-state, 255-value) lifted by forallb_forall (finite domains, bounds stated); hand models; harness stubs; the APT translator; numpy "
+         "uint64 arithmetic and ctypes packed layout / truncation / char-array NUL handling assumed and compared. USBTMC read_raw quirk branches and USBError paths, term_char, T3 are outside; "
+         "C15_usbtmc_in_limited assumes the device never exceeds the requested TransferSize (the _served form does not).",
+    technique="executable Gallina codecs; induction, round-trip, soundness and simulation proofs; finite CRC sweeps; translator-fed layout theorem; differential testing"),
  "C12": dict(category="proof", design_ref="7 (C12)",
     text="13 Coq theorems (all closed); 9 over ALL finite operation-and-fault histories of an executable model of the context and singleton lifecycle (exception monad with catch exactly where "
          "the code has try/except-log): table invariant (unique names, no reservation left, handlers = live names, one worker thread per live object, nothing released twice), duplicate "
